@@ -9,7 +9,9 @@ import (
 	"math/rand"
 	"os"
 	"runtime/debug"
+	"runtime/metrics"
 	"strings"
+	"time"
 )
 
 // A family generates op lines and executes them against the library.
@@ -49,6 +51,22 @@ func execLine(line string) (ans string) {
 	if len(toks) == 0 {
 		return ""
 	}
+	// resource guard (outermost operation only): allocation and time stay proportional to the size of the operation line
+	// — generous constants, so that only a super-linear or payload-times-count behaviour trips it
+	if !tracking && !resourceExempt(toks[0]) {
+		a0, t0 := allocatedBytes(), time.Now()
+		defer func() {
+			da, dt := allocatedBytes()-a0, time.Since(t0)
+			if strings.HasPrefix(ans, "panic ") {
+				return
+			}
+			if da > 4<<20+64*uint64(len(line)) {
+				ans = fmt.Sprintf("RESOURCE allocated %d octets for an operation line of %d", da, len(line))
+			} else if dt > 10*time.Second+time.Duration(len(line))*100*time.Microsecond {
+				ans = fmt.Sprintf("RESOURCE took %s for an operation line of %d", dt.Round(time.Millisecond), len(line))
+			}
+		}()
+	}
 	// argument guards: what this operation parses from its line is compared after the operation
 	wasTracking := tracking
 	tracking = true
@@ -79,6 +97,25 @@ func execLine(line string) (ans string) {
 		return "unknown-op"
 	}
 	return f.exec(toks[0], toks[1:])
+}
+
+var allocSample = []metrics.Sample{{Name: "/gc/heap/allocs:bytes"}}
+
+func allocatedBytes() uint64 {
+	metrics.Read(allocSample)
+	if allocSample[0].Value.Kind() == metrics.KindUint64 {
+		return allocSample[0].Value.Uint64()
+	}
+	return 0
+}
+
+// operations that are long histories or generate keys by design
+func resourceExempt(op string) bool {
+	switch op {
+	case "msg.noncehistory", "cwt.wallclock", "seq":
+		return true
+	}
+	return strings.HasPrefix(op, "conv.")
 }
 
 func firstLine(s string) string {
